@@ -278,46 +278,52 @@ def r1_3(ctx, rc):
         else:
             rc.ok({'decider': d.qualname, 'false_leads_to': 'return False'},
                   key=key)
-    # isinstance chains over record classes with an else: the else raises
+    # dispatches over record classes: the alternative reached when every
+    # isinstance test fails must raise (an unknown kind is not accepted)
+    from ..astpaths import cond_paths, isinstance_fact
     n = 0
     for f in prog.funcs.values():
-        for st in ast.walk(f.node):
-            if not isinstance(st, ast.If):
-                continue
-            par = prog.parent(st)
-            if isinstance(par, ast.If) and st in par.orelse and \
-                    len(par.orelse) == 1:
-                continue      # an elif of an enclosing chain
-            chain = []
-            cur = st
-            while True:
-                cl = G._isinstance_class(cur.test)
-                if cl is None or cl not in R.record_classes:
-                    chain = None
-                    break
-                chain.append(cl)
-                if len(cur.orelse) == 1 and isinstance(cur.orelse[0], ast.If):
-                    cur = cur.orelse[0]
-                    continue
-                break
-            if not chain or len(chain) < 2:
+        paths = cond_paths(f.node.body)
+        tested = {}
+        for conds, st in paths:
+            for t, pol in conds:
+                fi = isinstance_fact(t)
+                if fi:
+                    for c in fi[1]:
+                        if c in R.record_classes:
+                            tested.setdefault(fi[0], set()).add(c)
+        for var, classes in sorted(tested.items()):
+            if len(classes) < 2:
                 continue
             n += 1
-            key = 'dispatch over %s in %s' % ('/'.join(chain), f.qualname)
+            key = 'dispatch over %s in %s' % ('/'.join(sorted(classes)),
+                                              f.qualname)
             covered = set()
-            for c in chain:
+            for c in classes:
                 covered |= set(prog.subclasses(c))
-            els = cur.orelse
-            if els:
-                if any(isinstance(x, ast.Raise) for x in ast.walk(
-                        ast.Module(body=els, type_ignores=[]))):
+            elses = []
+            for conds, st in paths:
+                facts = [(isinstance_fact(t), pol) for t, pol in conds
+                         if isinstance_fact(t) and
+                         isinstance_fact(t)[0] == var]
+                neg = {c for fi, pol in facts if not pol for c in fi[1]}
+                pos = [fi for fi, pol in facts if pol]
+                first = next((i for i, (t, pol) in enumerate(conds)
+                              if isinstance_fact(t) and
+                              isinstance_fact(t)[0] == var), None)
+                if not pos and classes <= neg and all(
+                        not pol for _, pol in conds[first:]):
+                    elses.append(st)
+            if elses:
+                if all(isinstance(x, ast.Raise) for x in elses):
                     rc.ok({'chain': key, 'else': 'raise'}, key=key)
                 else:
                     rc.violation('dispatch-else | ' + key,
-                                 'the final else of a dispatch over record '
-                                 'classes does not raise (an unknown kind '
-                                 'is silently accepted)',
-                                 prog.loc(f, cur), key=key)
+                                 'the alternative of a dispatch over record '
+                                 'classes that is reached when no class '
+                                 'matches does not raise (an unknown kind is '
+                                 'silently accepted)',
+                                 prog.loc(f, elses[0]), key=key)
             else:
                 rc.ok({'chain': key, 'covers': sorted(
                     covered & set(R.concrete_records))}, key=key)
